@@ -33,6 +33,7 @@ import (
 
 	"github.com/golang-jwt/jwt"
 
+	"github.com/megaease/easegress/pkg/api"
 	"github.com/megaease/easegress/pkg/cluster"
 	"github.com/megaease/easegress/pkg/context"
 	"github.com/megaease/easegress/pkg/logger"
@@ -81,6 +82,7 @@ type x13Env struct {
 	tmp   string
 	cls   cluster.Cluster
 	super *supervisor.Supervisor
+	api   *api.Server
 
 	backend    *httptest.Server // proxy target
 	introspect *httptest.Server // OAuth2 token introspection endpoint
@@ -181,12 +183,19 @@ func x13NewEnv(tmp string) *x13Env {
 	os.Args = os.Args[:1] // option.Parse reads os.Args; the go test flags are not its business
 	opt := cluster.CreateOptionsForTest(filepath.Join(tmp, "eg"))
 	os.Args = saved
+	// the object registry mirrors the running config into <home>/running_objects.yaml:
+	// keep that under the scratch directory (the default home is the working directory)
+	opt.HomeDir = filepath.Join(tmp, "eg")
+	opt.AbsHomeDir = opt.HomeDir
 	cls, err := cluster.New(opt)
 	if err != nil {
 		panic(fmt.Errorf("c13 harness: cluster.New: %v", err))
 	}
 	e.cls = cls
 	e.super = supervisor.MustNew(opt, cls)
+	// the admin API server: objects register API groups (MQTTProxy) and the server's
+	// dynamic mux is the consumer of those registrations
+	e.api = api.MustNewServer(opt, cls, e.super, nil)
 
 	// ---- local servers
 	e.backend = httptest.NewServer(http.HandlerFunc(func(w http.ResponseWriter, r *http.Request) {
